@@ -18,45 +18,64 @@ EXTENDS GnosisSlot
 
 None == -1
 
-(* Round 4: a slot attempt may FAIL (database error) after the keyper aged its pointer and the
+(* Round 4: a slot attempt may FAIL (database error) after the keyper aged its pointer, and every
    slot is offered to the keyper twice (new block, slot ticker).  The age is "proposer slots since
    the last keys message": a slot for which a request was made counts exactly once, a slot whose
    only attempt(s) failed counts 0 or 1 times ("being off by one doesn't matter", newslot.go), no
-   slot ever counts twice.  The ghost therefore keeps an interval glo..ghi (ga = max(glo, 0), kept
-   for modules that read it) and the set of slots already tallied since the last keys message. *)
+   slot ever counts twice; the row of a new eon is initialised (value 0, age 0) by the first
+   attempt that gets that far, and that slot does not count.  After a failed attempt an observer
+   cannot tell how far it got, so the ghost keeps, per eon, the SET of pointer states that are
+   possible:  W[e] = set of worlds [a, c]:  a = NoRowAge (no row yet), Null (age unknown) or the
+   age;  c = 1 iff the slot of the last failed attempt, fs[e], is already accounted for in a.
+   Without faults W is a singleton.  ga[e] is a summary kept for modules that read it (Null if a
+   world is unknown, else the least age). *)
+NoRowAge == -2
+World(a, c) == [a |-> a, c |-> c]
 GhostInit == [gp |-> [e \in EonSet |-> None], ga |-> [e \in EonSet |-> 0],
-              glo |-> [e \in EonSet |-> 0], ghi |-> [e \in EonSet |-> 0], seen |-> [e \in EonSet |-> {}]]
+              W |-> [e \in EonSet |-> {World(NoRowAge, 0)}], fs |-> [e \in EonSet |-> 0], ls |-> [e \in EonSet |-> 0]]
 
-SyncGa(g, e) == [g EXCEPT !.ga[e] = IF @ = Null THEN Null ELSE Max2(g.glo[e], 0)]
+MinOf(S) == CHOOSE x \in S : \A y \in S : x <= y
+SyncGa(g, e) ==
+    LET ages == {IF w.a = NoRowAge THEN 0 ELSE w.a : w \in g.W[e]} IN
+    [g EXCEPT !.ga[e] = IF Null \in ages THEN Null ELSE MinOf(ages),
+              !.gp[e] = IF @ = None /\ \E w \in g.W[e] : w.a # NoRowAge THEN 0 ELSE @]
 
 (* a request (decryption trigger) for eon e and slot s was observed *)
 GhostRequestAt(g, e, s) ==
-    IF g.gp[e] = None                                   \* a new eon starts at 0; that slot does not count
-    THEN [g EXCEPT !.gp[e] = 0, !.ga[e] = 0, !.glo[e] = 0, !.ghi[e] = 0, !.seen[e] = {s}]
-    ELSE IF g.ga[e] = Null THEN g
-    ELSE IF s \in g.seen[e]
-         THEN SyncGa([g EXCEPT !.glo[e] = @ + 1], e)     \* tallied as 0..1 by a failed attempt: now exactly once
-         ELSE SyncGa([g EXCEPT !.glo[e] = @ + 1, !.ghi[e] = @ + 1, !.seen[e] = @ \cup {s}], e)
+    LET again == (s = g.fs[e] /\ s # 0)             \* the slot of the last failed attempt is requested after all
+        twice == (s = g.ls[e] /\ s # 0)             \* a second request for the slot requested last: counts no second time
+        step(w) == IF twice /\ w.a # NoRowAge THEN w
+                   ELSE IF w.a = NoRowAge THEN World(0, IF again THEN 1 ELSE 0)      \* initialised now; does not count
+                   ELSE IF w.a = Null THEN World(Null, IF again THEN 1 ELSE 0)
+                   ELSE IF again THEN World(w.a + (1 - w.c), 1)                 \* counts exactly once in total
+                   ELSE World(w.a + 1, 0)
+    IN SyncGa([g EXCEPT !.W[e] = {step(w) : w \in @}, !.fs[e] = IF again THEN @ ELSE 0, !.ls[e] = s], e)
 GhostRequest(g, e) == GhostRequestAt(g, e, 0)
 
-(* an attempt for slot s failed with a database error: no request was made *)
+(* an attempt for slot s failed with a database error: no request was made; it may have stopped
+   before or after ageing / initialising the pointer *)
 GhostFailedAt(g, e, s) ==
-    IF g.gp[e] = None                                   \* the row may or may not have been initialised
-    THEN [g EXCEPT !.gp[e] = 0, !.ga[e] = 0, !.glo[e] = -1, !.ghi[e] = 0, !.seen[e] = {s}]
-    ELSE IF g.ga[e] = Null \/ s \in g.seen[e] THEN g
-    ELSE [g EXCEPT !.ghi[e] = @ + 1, !.seen[e] = @ \cup {s}]
+    LET again == (s = g.fs[e] /\ s # 0)
+        more(w) == IF w.a = NoRowAge THEN {World(NoRowAge, 0), World(0, 1)}
+                   ELSE IF w.a = Null THEN {World(Null, 0)}
+                   ELSE IF again THEN (IF w.c = 0 THEN {w, World(w.a + 1, 1)} ELSE {w})
+                   ELSE {World(w.a, 0), World(w.a + 1, 1)}
+    IN SyncGa([g EXCEPT !.W[e] = UNION {more(w) : w \in @}, !.fs[e] = s], e)
 
 (* a keys message of eon e with pointer p and k keys was observed to be processed *)
-GhostKeys(g, e, p, k) == [g EXCEPT !.gp[e] = p + k - 1, !.ga[e] = 0, !.glo[e] = 0, !.ghi[e] = 0, !.seen[e] = {}]
+GhostKeys(g, e, p, k) == [g EXCEPT !.gp[e] = p + k - 1, !.ga[e] = 0, !.W[e] = {World(0, 0)}, !.fs[e] = 0, !.ls[e] = 0]
 
-(* a restart was observed: the age of every known pointer is unknown *)
-GhostRestart(g) == [g EXCEPT !.ga = [e \in EonSet |-> IF g.gp[e] # None THEN Null ELSE g.ga[e]]]
+(* a restart was observed: the age of every pointer that is in the table is unknown *)
+RECURSIVE RestartEons(_, _)
+RestartEons(g, e) ==
+    IF e > NEons THEN g
+    ELSE RestartEons(SyncGa([g EXCEPT !.W[e] = {IF w.a = NoRowAge THEN w ELSE World(Null, w.c) : w \in @}], e), e + 1)
+GhostRestart(g) == RestartEons(g, 1)
 
 (* where the request may start, g = ghost after GhostRequestAt *)
-Starts(g, e, q) ==
-    IF g.ga[e] = Null THEN {Len(q)}
-    ELSE {IF a > MaxAge THEN Len(q) ELSE g.gp[e] : a \in Max2(g.glo[e], 0)..g.ghi[e]}
+Starts(g, e, q) == {IF w.a = Null \/ w.a > MaxAge THEN Len(q) ELSE g.gp[e] : w \in g.W[e]}
 StartOf(g, e, q) == IF g.ga[e] = Null \/ g.ga[e] > MaxAge THEN Len(q) ELSE g.gp[e]
+Exact(g, e) == Cardinality(g.W[e]) = 1
 
 RECURSIVE GasSum(_, _, _)
 GasSum(q, a, b) == IF a > b THEN GasZero ELSE GasAdd(GasOf(q[a].g), GasSum(q, a + 1, b))
@@ -88,7 +107,7 @@ SelectionOK(ids, q, e, s, start) ==
 RequestFailed(gAfter, q, e, s, ids) ==
     (IF Len(ids) >= 1 /\ ids[1] = SlotId(s) THEN {} ELSE {"C19_SlotFirst"}) \cup
     (IF \E start \in Starts(gAfter, e, q) : SelectionOK(ids, q, e, s, start) THEN {} ELSE
-        IF gAfter.ga[e] = Null \/ gAfter.ga[e] > MaxAge THEN {"C19_Fallback"} ELSE {"C19_Select"})
+        IF \E w \in gAfter.W[e] : w.a = Null \/ w.a > MaxAge THEN {"C19_Fallback"} ELSE {"C19_Select"})
 
 (* monitor of a processed keys message: the tx_pointer row afterwards *)
 KeysFailed(rowAfter, p, k) ==
@@ -114,10 +133,10 @@ SameSynced(r1, r2) == r1.slot = r2.slot /\ r1.e = r2.e /\ r1.q = r2.q /\ r1.row 
 AgreeOK(r1, r2) == SameSynced(r1, r2) => (r1.ids = r2.ids /\ r1.hash = r2.hash)
 
 (* ... or from the same queue, eon and slot by keypers for which the same pointer was agreed and
-   exactly the same number of slots counts since (records with the ghost fields gp, glo, ghi, unk) *)
+   exactly the same number of slots counts since (records with the ghost fields gp, gw = the set
+   of possible ages: both must be singletons) *)
 SameAgreed(r1, r2) == /\ r1.slot = r2.slot /\ r1.e = r2.e /\ r1.q = r2.q
-                      /\ r1.gp = r2.gp /\ r1.unk = r2.unk
-                      /\ (r1.unk \/ (r1.glo = r1.ghi /\ r2.glo = r2.ghi /\ r1.glo = r2.glo))
+                      /\ r1.gp = r2.gp /\ r1.gw = r2.gw /\ Cardinality(r1.gw) = 1
 AgreeOK2(r1, r2) == (SameSynced(r1, r2) \/ SameAgreed(r1, r2)) => (r1.ids = r2.ids /\ r1.hash = r2.hash)
 
 =============================================================================
